@@ -61,10 +61,19 @@ func probePassthrough(e *fw.Env, l *Lab, ctx sdk.Context, limit uint32, hist any
 		}
 		t := l.NewTransfer(e.R, d.Denom, big.NewInt(1_000_000), s)
 		branch, _ := ctx.CacheContext()
+		// one probe in three: the orbiter account holds dust of the transferred coin (anybody can
+		// send coins there); the limit applies all the same
+		dust := ""
+		if e.R.Intn(3) == 0 {
+			amt := GenAmount(e.R, big.NewInt(5_000_000))
+			if Deposit(l.W, branch, l.W.K("carol"), d.Denom, amt) == nil {
+				dust = amt.String() + d.Denom
+			}
+		}
 		o := run.Do(l.W, branch, t, run.Mode{Kind: "H"})
 		e.Res.Eval()
 		Universal(e.Res, o)
-		wtn := map[string]any{"history": hist, "limit": limit, "passthrough_len": n, "dest": d.Name, "outcome": o.Res.String()}
+		wtn := map[string]any{"history": hist, "limit": limit, "passthrough_len": n, "dest": d.Name, "dust_on_orbiter_account": dust, "outcome": o.Res.String()}
 		tooLong := uint64(n) > uint64(limit)
 		switch {
 		case o.Res.Panic != nil || o.Res.Err != nil || o.Res.Ack == nil:
@@ -82,7 +91,7 @@ func probePassthrough(e *fw.Env, l *Lab, ctx sdk.Context, limit uint32, hist any
 		if tooLong {
 			rel = "over"
 		}
-		e.Res.Sig("limit=%s|len-%s|%s|%s", limBucket(limit), rel, lenBucket(n, limit), outcomeClass(o))
+		e.Res.Sig("limit=%s|len-%s|%s|dust=%v|%s", limBucket(limit), rel, lenBucket(n, limit), dust != "", outcomeClass(o))
 	}
 }
 
